@@ -260,6 +260,16 @@ pub fn run(pid: &str, _func: &str, replay: Option<Value>, seed: u64) -> Value {
             }
         } }
     }
+    if c31 {
+        // n-ary unions of non-pattern operands (to_matcher builds a balanced UnionMatcher tree over them)
+        let q: Vec<E> = ls.iter().map(|l| E::Inter(Box::new(l.clone()), Box::new(E::All))).collect();
+        for a in &q { for b in &q { for c in &q {
+            if let Some(h) = check_expr(&E::Union(vec![a.clone(), b.clone(), c.clone()]), true, &small, &small_p, &small_d) { return h; }
+            for d in &q[2..5] { for e in &q[5..7] {
+                if let Some(h) = check_expr(&E::Union(vec![a.clone(), b.clone(), c.clone(), d.clone(), e.clone()]), true, &small, &small_p, &small_d) { return h; }
+            } }
+        } } }
+    }
     let mut rng = Rng::new(seed ^ if c31 { 0xC31 } else { 0xC30 });
     for _ in 0..if c31 { 6000 } else { 8000 } {
         let depth = 2 + rng.below(3) as u32;
@@ -267,7 +277,7 @@ pub fn run(pid: &str, _func: &str, replay: Option<Value>, seed: u64) -> Value {
         if let Some(h) = check_expr(&e, c31, &big, &big_p, &big_d) { return h; }
     }
     if c31 {
-        json!({"found": false, "note": "scope exhausted: FilesetExpression::to_matcher for every expression of depth <= 1 and a third of depth 2 over 9 leaves (none, all, file and prefix sets over a/b paths), plus 6000 random expressions of depth <= 4 (file/prefix paths, simple globs * ? incl. case-insensitive, n-ary/empty/nested unions) checked on all paths of depth <= 3 over components {a,b,ab,A}: matches == denotation, visit sound", "scope": "small"})
+        json!({"found": false, "note": "scope exhausted: FilesetExpression::to_matcher for every expression of depth <= 1 and a third of depth 2 over 9 leaves (none, all, file and prefix sets over a/b paths), all 3-ary and 4374 5-ary unions of leaf&all operands, plus 6000 random expressions of depth <= 4 (file/prefix paths, simple globs * ? incl. case-insensitive, n-ary/empty/nested unions) checked on all paths of depth <= 3 over components {a,b,ab,A}: matches == denotation, visit sound", "scope": "small"})
     } else {
         json!({"found": false, "note": "scope exhausted: every Union/Intersection/Difference tree of depth <= 2 over 9 leaves (Nothing, Everything, 4 FilesMatcher, 3 PrefixMatcher), all 7 directories and 14 paths of depth <= 3 over {a,b}; 8000 random trees of depth <= 4 on paths over {a,b,ab,A}: matches == denotation, visit sound for it", "scope": "small"})
     }
